@@ -231,6 +231,9 @@ func (e *encoder) encode(wire []fieldJ) ([]byte, error) {
 		name, class, _ := strings.Cut(f.F, ":")
 		if e.special != nil {
 			if b, ok := e.special(f, name, class, len(out)); ok {
+				if len(b) > f.N {
+					b = b[:f.N] // the model cut the field short (a sealed prefix)
+				}
 				if len(b) != f.N {
 					return nil, fmt.Errorf("field %s: special encoder produced %d bytes, the model says %d", f.F, len(b), f.N)
 				}
@@ -238,15 +241,21 @@ func (e *encoder) encode(wire []fieldJ) ([]byte, error) {
 				continue
 			}
 		}
+		// a field the model cut short (a sealed prefix) carries the first bytes of its full encoding
+		full := map[string]int{"ts": 8, "ip4": 4, "ip6": 16, "port": 2, "padlen": 2}[name]
 		switch {
 		case name == "ts":
-			out = binary.BigEndian.AppendUint64(out, uint64(e.now.Unix()+f.V))
+			out = append(out, binary.BigEndian.AppendUint64(nil, uint64(e.now.Unix()+f.V))[:f.N]...)
 		case name == "dom":
 			out = append(out, domainBytes(e.rnd, f.N, class)...)
 		case name == "ip4":
-			out = append(out, ip4Bytes(e.rnd, class)...)
+			out = append(out, ip4Bytes(e.rnd, class)[:f.N]...)
 		case name == "ip6":
-			out = append(out, ip6Bytes(e.rnd, class)...)
+			out = append(out, ip6Bytes(e.rnd, class)[:f.N]...)
+		case f.V >= 0 && full > f.N:
+			var b [8]byte
+			binary.BigEndian.PutUint64(b[:], uint64(f.V))
+			out = append(out, b[8-full:8-full+f.N]...)
 		case f.V >= 0 && f.N <= 8:
 			var b [8]byte
 			binary.BigEndian.PutUint64(b[:], uint64(f.V))
